@@ -37,7 +37,7 @@ ENUM_EXHAUSTIVE = {'thorough': 'all ordered pairs of call signatures with 0-2 po
                                '{x, y} over {1, 1.0, "a"} in both insertion orders, as history [s1, s2, s1] on the default cache '
                                'and on a supplied dict'}
 
-VALS = [0, 1, 1.0, True, 'a', 'b', (1, 2), (1.0, 2), None, frozenset({1}), -1, -2]     # hash(-1) == hash(-2): unequal, same hash
+VALS = [0, 1, 1.0, True, 'a', 'b', (1, 2), (1.0, 2), None, frozenset({1}), -1, -2, ('x', 1), ('y', 1), ('x', 'a')]     # hash(-1) == hash(-2): unequal, same hash
 NAMES = ['x', 'y', 'z']
 CACHES = ['default', 'dict', 'empty-mapping', 'lru', 'lru.LRU']
 
@@ -315,7 +315,7 @@ def machines(tier):
             def call_respelled(self, data):
                 """Re-issue an earlier signature with a different but equal spelling, or a near miss."""
                 args, kwargs = data.draw(st.sampled_from(self.sigs))
-                how = data.draw(st.sampled_from(['permute-kwargs', 'equal-value', 'change-one-kw', 'move-to-kw', 'same']))
+                how = data.draw(st.sampled_from(['permute-kwargs', 'equal-value', 'change-one-kw', 'move-to-kw', 'kw-as-pair', 'same']))
                 args, kwargs = list(args), [list(x) for x in kwargs]
                 if how == 'permute-kwargs' and len(kwargs) > 1:
                     kwargs = data.draw(st.permutations(kwargs))
@@ -331,6 +331,14 @@ def machines(tier):
                 elif how == 'change-one-kw' and kwargs:
                     i = data.draw(st.integers(0, len(kwargs) - 1))
                     kwargs[i][1] = (kwargs[i][1] + data.draw(st.integers(1, len(VALS) - 1))) % len(VALS)
+                elif how == 'kw-as-pair' and kwargs:
+                    # f(x=1) vs f(('x', 1)): a keyword pair passed as a positional (name, value) tuple is another key
+                    pairs = {(VALS[12][0], 1): 12, (VALS[13][0], 1): 13, ('x', 4): 14}
+                    for i, (n_, v_) in enumerate(kwargs):
+                        if (n_, v_) in pairs:
+                            args.append(pairs[(n_, v_)])
+                            del kwargs[i]
+                            break
                 elif how == 'move-to-kw' and args:
                     free = [n for n in NAMES if n not in [k for k, _ in kwargs]]
                     if free:
@@ -365,6 +373,7 @@ def enumerate_cases(tier):
         return
     pv = [1, 2, 4]          # indices of 1, 1.0, 'a'
     pos = [list(p) for n in range(3) for p in itertools.product(pv, repeat=n)]
+    pos += [[12], [14], [1, 12], [12, 13]]      # positional (name, value) tuples mirroring keyword pairs
     kws = [[]]
     for n in ('x', 'y'):
         kws += [[[n, v]] for v in pv]
